@@ -10,6 +10,7 @@ type CheckDef struct {
 	Harness        []string // "<pkg rel path>:<Func>"; run in both tiers
 	Thorough       []string // additional harnesses for the thorough tier
 	MaxIter        int
+	QueryMs        int // primary solver per-query timeout (0 = default)
 	Stubs          map[string]string
 	QuickBudget    time.Duration
 	ThoroughBudget time.Duration
@@ -94,5 +95,20 @@ func init() {
 		Outside: []string{"DNS wire packing (miekg/dns)", "concurrent lookups (refresh flag is a CAS; sequential here)", "async BPF update worker"},
 		Assumptions: []string{"time.Time abstraction: Unix nanoseconds, no zones", "Msg.Pack replaced by TTL-carrying blob", "clock non-decreasing, < 2^61 ns"},
 		QuickBudget: 8 * time.Minute, ThoroughBudget: 40 * time.Minute,
+	}
+	checks["C15"] = &CheckDef{
+		Pkgs:    []string{"./component/outbound"},
+		Harness: []string{"component/outbound/dialer:Verif_C15_min_2nodes", "component/outbound/dialer:Verif_C15_min_3nodes", "component/outbound/dialer:Verif_C15_random", "component/outbound:Verif_C15_group_select"},
+		MaxIter: 400,
+		QueryMs: 1500,
+		Level:   "other",
+		LevelText: "Histories of NotifyLatencyChange events (which node, alive or not, measured or not, latency, per-node offsets and the tolerance all symbolic) are run through the real AliveDialerSet from its constructor; after every event the solver shows that Len/GetMinLatency/GetRandExcluded agree with a ghost alive-set, that no measured alive node beats the chosen one by the tolerance or more, that the choice moved only for the reasons the statement lists, and that exclusion is honoured. The real DialerGroup.SelectWithExclusionResult/_select/selectionNetworkTypes run over six health domains with symbolic alive flags for every policy, requested type, strictness and excluded node.",
+		LevelNote: "Trusted: go/ssa, executor, z3/cvc5, harness spec. Dialer.snapshotLatencyForPolicy and MustGetAlive are replaced by the harness's ghost tables (a node once measured stays measured); fastrand is an arbitrary in-range value; logging is a no-op. Bounded histories from construction (no inductive invariant is assumed). Group callbacks (edge reporting) belong to C16 and are not asserted here.",
+		Technique: techniqueText,
+		Explanation: "Bounded symbolic execution of AliveDialerSet and DialerGroup selection.",
+		Bounds:  map[string]string{"quick": "min policy: 2 nodes x 3 events and 3 nodes x 2 events (first event on node 0 by symmetry), latencies 0..10 s, offsets/tolerance 0..1 s; random: 3 nodes x 3 events; group select: 1-2 nodes, policies random/min/fixed(0,1,-1), requested in {data-udp4, tcp6, dns-udp4}, strict and non-strict, any excluded node, alive flags of every consulted domain symbolic", "thorough": "min policy: 2 nodes x 5 events, 3 nodes x 4 events; group select: all six requested types"},
+		Outside: []string{"min_avg10 / min_moving_avg differ from min only in snapshotLatencyForPolicy (stubbed)", "SetSelectionPolicy at run time", "concurrent notifications (mutex-protected)"},
+		Assumptions: []string{"a measured node keeps having a measurement", "fastrand arbitrary", "untried health domains are set alive (adversarial)"},
+		QuickBudget: 8 * time.Minute, ThoroughBudget: 60 * time.Minute,
 	}
 }
